@@ -210,6 +210,22 @@ impl Pool {
         Self::new_with_conn(conn)
     }
 
+    /// Verification hook: open the lease store at a caller-chosen path.
+    #[cfg(erbium_verif)]
+    pub fn verif_open(path: &std::path::Path) -> Result<Pool, Error> {
+        let conn = rusqlite::Connection::open(path)
+            .map_err(|e| Error::emit("Creating database (verif)", &e))?;
+
+        Self::new_with_conn(conn)
+    }
+
+    /// Verification hook: access to the underlying connection (clock control
+    /// by shifting stored timestamps).
+    #[cfg(erbium_verif)]
+    pub fn verif_conn(&self) -> &rusqlite::Connection {
+        &self.conn
+    }
+
     pub fn get_pool_metrics(&mut self) -> Result<(u32, u32), Error> {
         let ts: u32 = std::time::SystemTime::now()
             .duration_since(std::time::SystemTime::UNIX_EPOCH)
